@@ -371,17 +371,28 @@ func ruleNS2(c *Ctx) {
 							}
 						}
 						usesSeen, usesNS := false, false
-						ast.Inspect(lit.Body, func(n ast.Node) bool {
-							if call, ok := n.(*ast.CallExpr); ok {
-								if _, ok := MethodCall(info, call, "json", "uintSet", "insert"); ok {
-									usesSeen = true
-								}
-								if _, ok := MethodCall(info, call, "jsontext", "objectNamespace", "InsertUnquoted"); ok {
-									usesNS = true
+						bodies := []ast.Node{lit.Body}
+						// the closure may only forward to a named function that does the work
+						if lf := p.LitInfo(lit); lf != nil {
+							for _, g := range p.CalleeClosure(lf, 2) {
+								if g != lf && g.Body() != nil {
+									bodies = append(bodies, g.Body())
 								}
 							}
-							return true
-						})
+						}
+						for _, b := range bodies {
+							ast.Inspect(b, func(n ast.Node) bool {
+								if call, ok := n.(*ast.CallExpr); ok {
+									if _, ok := MethodCall(info, call, "json", "uintSet", "insert"); ok {
+										usesSeen = true
+									}
+									if _, ok := MethodCall(info, call, "jsontext", "objectNamespace", "InsertUnquoted"); ok {
+										usesNS = true
+									}
+								}
+								return true
+							})
+						}
 						okChecker = guardOK && usesSeen && usesNS
 						if guardOK && !(usesSeen && usesNS) {
 							why = "the duplicate checker does not consult both the seen-field set and the namespace"
